@@ -365,7 +365,7 @@ func methodBeforeOperator(c *Ctx, plugin, pred, method, rule, opDesc string) {
 				if strings.HasPrefix(e.Sym, "K:"+org+":") {
 					namedAsked = true // a type switch on the value itself established its dynamic kind
 				}
-				if e.Sym == "B:pred:"+method+"("+org+",)!=nil" {
+				if e.Sym == "B:pred:"+method+"("+org+",)!=nil" || e.Sym == "B:pred:"+method+"("+org+",)#1" {
 					methAsked = true
 				}
 			}
@@ -460,7 +460,7 @@ func equalCoreRules(c *Ctx, leafSemantics bool) {
 	}
 	curriedCompat(c, "equal", bodies, bodyRun)
 	c.Rep.analysed("equal_residuals", n)
-	methodBeforeOperator(c, "equal", "canEqual", "equalMethodInputParam", "R-method", "`==`")
+	methodBeforeOperator(c, "equal", "canEqual", methodPredicateName(c.R.repo, "equal.equalMethodInputParam", "Equal"), "R-method", "`==`")
 	runG9(c, "equal.canEqual")
 	g9Methods(c, methodSpec{"equal.equalMethodInputParam", "Equal", 1, 1, types.Bool})
 }
